@@ -47,12 +47,15 @@ void do_plan(int tier)
     } else if (k == 1 || k == 3) {
       plan.launch = 2;
       plan.init_threads = 2 + (int)sim_plan(3);
+      if (sim_plan(6) == 0)
+        plan.init_threads = 1;  // a tasking system without a worker thread besides the caller
     } else {
       plan.launch = 0;
       plan.init_threads = 2 + (int)sim_plan(5);
     }
   } else {
-    plan.launch = sim_plan(2) ? 0 : 1;  // AUTO resolves to THREAD without a tasking system
+    unsigned k = sim_plan(5);
+    plan.launch = k == 0 ? 2 : (k & 1);  // AUTO resolves to THREAD without a tasking system; TASK is asked for explicitly in 1 run of 5
     plan.init_threads = 0;
   }
   sim_set_cores(2 + (int)sim_plan(5));
